@@ -189,6 +189,16 @@ def doStream (fs : List String) : String :=
     | _ => none
   r.getD "ERR"
 
+def alignCode : Option Align → String
+  | some .left => "l" | some .center => "c" | some .right => "r" | none => "-"
+def fieldCode : Option Field → String
+  | some .timestamp => "t" | some .author => "a" | some .commit => "c" | none => "-"
+def optNatCode : Option Nat → String
+  | some n => toString n | none => "-"
+def itemCode (it : Item) : String :=
+  ",".intercalate [hexOfStr it.pre, fieldCode it.ph, alignCode it.align, optNatCode it.width,
+    optNatCode it.prec, hexOfStr it.suf]
+
 def step (line : String) : String :=
   match fields line with
   | ["blame.parse", l] => doParse l
@@ -199,6 +209,8 @@ def step (line : String) : String :=
   | ["blame.arms_total"] =>
     -- does the generated `get_color` table contain a delta_unreachable arm?
     if Generated.Blame.getColorArms.any (fun a => a.2.2.2 == 4) then "ok partial" else "ok total"
+  | ["blame.default_items"] =>
+    s!"ok {defaultItems.length} " ++ " ".intercalate (defaultItems.map itemCode)
   | ["blame.variant"] => s!"ok {mode} {arith}"
   | _ => "ERR"
 
